@@ -55,6 +55,7 @@ type Program struct {
 	postconds    map[*types.Func][]lenPostcond
 	postCache    map[*FuncInfo]*postInfo
 	postBusy     map[*FuncInfo]bool
+	resLenCache  map[*FuncInfo][]resLen
 	postcondBusy bool
 
 	ssaProg *ssa.Program
